@@ -20,7 +20,7 @@ RULE = (
     "every body is held open and released one at a time only when the simulator is quiescent, so at each decision the framework has admitted "
     "as many bodies as it ever will (release order seeded, or swept systematically for small cases); also random-delay and ready-shuffle modes. "
     "Non-trivial = the limit was saturated (in_flight == k at some body entry); distinct = digest of (program shape, k, release order)."
-    ' Also: async generator nodes and interrupt handlers (both are node functions), and a SEQUENCE variant: an earlier top-level call with another limit, made from the same task, fails / returns FAILED / pauses / completes / is cancelled by a caller-side timeout (asyncio.wait_for on the virtual clock, bodies in flight) before the measured call. Survivable failures: a node function or interrupt handler raises inside items of a continuing map (runner.map or map_over node, error_handling=continue); the rest of the call must still get its permits.'
+    ' Also: async generator nodes and interrupt handlers (both are node functions), and a SEQUENCE variant: an earlier top-level call with another limit, made from the same task, fails / returns FAILED / pauses / completes / is cancelled by a caller-side timeout (asyncio.wait_for on the virtual clock, bodies in flight) before the measured call. Survivable failures: a node function or interrupt handler raises inside items of a continuing map (runner.map or map_over node, error_handling=continue); the rest of the call must still get its permits. Exact step budget: max_iterations set to what the unlimited run needs (a concurrency limit must not change the number of supersteps).'
 )
 ASSUMPTIONS = ["bodies of function nodes are the unit of 'executing'; gate functions are synchronous and cannot be held open"]
 
@@ -121,6 +121,9 @@ def gen_case(rng: random.Random, tier: str) -> dict:
         "graph": g,
         "inputs": {"provide": provide, "omit": []},
         "fault": fault,
+        # the step budget (max_iterations) is set to exactly what the unlimited run needs: a limit on concurrency must not change
+        # how many supersteps a run takes
+        "exact_budget": rng.random() < 0.3,
         "k": rng.choice([1, 1, 2, 2, 3, 4]),
         "hold_seeds": [rng.randrange(1 << 30) for _ in range(2)],
         "sweep": rng.random() < 0.4,
@@ -197,6 +200,19 @@ def run_case(doc: dict) -> dict:
         if doc.get("pre_run"):
             _sequence(doc, g, values, op, kw, res, rts, viol)
         ref = world({"schedule": {"mode": "delay", "seed": 1, "choices": [0, 1]}, "shuffle": None, "max_concurrency": None}, "unlimited")
+        if doc.get("exact_budget") and op == "run" and ref["out"]["status"] == "completed":
+            from hgsim.loops import top_steps
+
+            n_steps = len(top_steps(ref["rt"]))
+            for budget in (n_steps, n_steps + 1):
+                kw["max_iterations"] = max(1, budget)
+                ref2 = world({"schedule": {"mode": "delay", "seed": 1, "choices": [0, 1]}, "shuffle": None, "max_concurrency": None}, "unlimited_with_exact_budget")
+                if ref2["out"]["status"] == "completed":
+                    ref = ref2
+                    res["stats"]["cases_with_exact_step_budget"] = 1
+                    break
+            else:
+                kw.pop("max_iterations", None)
         base = summary(ref)
         if base[0] == "raised":
             res["discard"] = "rejected_by_validation"
